@@ -326,3 +326,5 @@ _quick("C09", "C09_cut", "the real ReplicationClient.InitSync against a scripted
 _quick("C15", "C15_textnum", "SET k to the decimal string of 0 / 7 / 10 / 99, then INCR k or DECRBY k 3, then GET k, on a real TextServerProtocol: answers of a plain key-value store", ["-witness", "2"], reach=[])
 
 _quick("C18", "C18_willwindow", "connections A and B announce the same client id; A leaves two queued requests (key K held by B, key K2 held by a third connection) and closes; B releases K by a registered WILL_UNLOCK when it closes (or by an UNLOCK just before): A's first request is granted while B is closed but still registered; C announces the id, K2 is released: A's second reply reaches C", ["-witness", "2"], reach=["end", "will"])
+
+_quick("C05", "C05_unlockwait", "holder A and a queued request W; A unlocks with the unlock-then-wait flag (0x08), Timeout 3 s and an expiry in seconds / milliseconds / minutes; W is granted, A's re-queued request is answered TIMEOUT exactly once, in [T, T+2s], through the real per-second sweeps (a millisecond sweeper, if started, is run at its time)", ["-witness", "3"])
